@@ -265,6 +265,9 @@ struct C13State {
 }
 
 pub fn run(prop: Prop, s: &HistScenario) -> RunOut {
+    if s.coarse_ids && prop == Prop::C12 {
+        return crate::coarse::run(s);
+    }
     let passthrough = s
         .steps
         .iter()
